@@ -71,6 +71,10 @@ const (
 	XLOG_HEAP_CONFIRM      = 0x50
 	XLOG_HEAP_LOCK         = 0x60
 	XLOG_HEAP_INPLACE      = 0x70
+
+	// Flag bit of Heap and Heap2 records (also XLOG_BRIN_INIT_PAGE): the record initialises the page.
+	// PostgreSQL names the combination "<operation>+INIT" for the operations that can carry it.
+	XLOG_HEAP_INIT_PAGE    = 0x80
 )
 
 // Transaction operation info bits
@@ -459,17 +463,23 @@ func operationName(rmid, info uint8) string {
 func operationNameFor(rmid, info uint8, magic uint16) string {
 	switch rmid {
 	case RM_HEAP_ID:
-		switch info & 0x70 {
+		switch info & 0xF0 { // as heap_identify: with XLOG_HEAP_INIT_PAGE only INSERT, UPDATE and HOT_UPDATE have a name
 		case XLOG_HEAP_INSERT:
 			return "INSERT"
+		case XLOG_HEAP_INSERT | XLOG_HEAP_INIT_PAGE:
+			return "INSERT+INIT"
 		case XLOG_HEAP_DELETE:
 			return "DELETE"
 		case XLOG_HEAP_UPDATE:
 			return "UPDATE"
+		case XLOG_HEAP_UPDATE | XLOG_HEAP_INIT_PAGE:
+			return "UPDATE+INIT"
 		case XLOG_HEAP_TRUNCATE:
 			return "TRUNCATE"
 		case XLOG_HEAP_HOT_UPDATE:
 			return "HOT_UPDATE"
+		case XLOG_HEAP_HOT_UPDATE | XLOG_HEAP_INIT_PAGE:
+			return "HOT_UPDATE+INIT"
 		case XLOG_HEAP_CONFIRM:
 			return "CONFIRM"
 		case XLOG_HEAP_LOCK:
@@ -479,7 +489,7 @@ func operationNameFor(rmid, info uint8, magic uint16) string {
 		}
 	case RM_HEAP2_ID:
 		if magic < WAL_MAGIC_14 { // PostgreSQL 12, 13: 0x10 CLEAN, 0x20 FREEZE_PAGE, 0x30 CLEANUP_INFO
-			switch info & 0x70 {
+			switch info & 0xF0 {
 			case 0x10:
 				return "CLEAN"
 			case 0x20:
@@ -488,7 +498,7 @@ func operationNameFor(rmid, info uint8, magic uint16) string {
 				return "CLEANUP_INFO"
 			}
 		}
-		switch info & 0x70 {
+		switch info & 0xF0 { // as heap2_identify: XLOG_HEAP_INIT_PAGE goes with MULTI_INSERT only
 		case 0x00:
 			return "REWRITE"
 		case 0x10:
@@ -501,6 +511,8 @@ func operationNameFor(rmid, info uint8, magic uint16) string {
 			return "VISIBLE"
 		case 0x50:
 			return "MULTI_INSERT"
+		case 0x50 | XLOG_HEAP_INIT_PAGE:
+			return "MULTI_INSERT+INIT"
 		case 0x60:
 			return "LOCK_UPDATED"
 		case 0x70:
@@ -613,11 +625,7 @@ func operationNameFor(rmid, info uint8, magic uint16) string {
 	case RM_GENERIC_ID:
 		return "Generic"
 	}
-	op := info & 0xF0
-	if rmid == RM_BRIN_ID {
-		op = info & 0x70 // XLOG_BRIN_OPMASK; 0x80 is XLOG_BRIN_INIT_PAGE
-	}
-	if name, ok := otherOpNames[rmid][op]; ok {
+	if name, ok := otherOpNames[rmid][info&0xF0]; ok {
 		return name
 	}
 	return fmt.Sprintf("op_0x%02X", info)
@@ -641,7 +649,7 @@ var otherOpNames = map[uint8]map[uint8]string{
 	RM_SPGIST_ID: {0x10: "ADD_LEAF", 0x20: "MOVE_LEAFS", 0x30: "ADD_NODE", 0x40: "SPLIT_TUPLE", 0x50: "PICKSPLIT",
 		0x60: "VACUUM_LEAF", 0x70: "VACUUM_ROOT", 0x80: "VACUUM_REDIRECT"},
 	RM_BRIN_ID: {0x00: "CREATE_INDEX", 0x10: "INSERT", 0x20: "UPDATE", 0x30: "SAMEPAGE_UPDATE", 0x40: "REVMAP_EXTEND",
-		0x50: "DESUMMARIZE"},
+		0x50: "DESUMMARIZE", 0x90: "INSERT+INIT", 0xA0: "UPDATE+INIT"}, // 0x80 is XLOG_BRIN_INIT_PAGE
 	RM_COMMIT_TS_ID:  {0x00: "ZEROPAGE", 0x10: "TRUNCATE"},
 	RM_REPLORIGIN_ID: {0x00: "SET", 0x10: "DROP"},
 	RM_LOGICALMSG_ID: {0x00: "MESSAGE"},
